@@ -19,14 +19,14 @@ RULE = ("schedule exploration with real threads: for ordered pairs (A, B) of cal
         "CACHE_SIZE_LIMIT, relative phrase, search_dates in two languages, a shared long-lived DateDataParser, a Jalali call, a "
         "call that raises SettingValidationError, the default-settings call), thread A is pre-empted once when about to execute "
         "its k-th library line (sys.monitoring LINE), B runs to completion or until it blocks, A resumes. quick: per pair and "
-        "direction the first k of every distinct (file, line) location (seeded sample of 140 when there are more) + 30 seeded random k; thorough: every k. Plus "
+        "direction the first k of every distinct (file, line) location (seeded sample of 140 when there are more) + 30 seeded random k; thorough: every k of calls up to 2000 library lines, else every distinct location + a seeded sample up to 2000. Plus "
         "free-running stress (8 threads x random pool calls, switch interval 1 us, seeded yield injection) and cold-start rounds "
         "(fresh interpreters whose very first library calls are made by 8 threads released by a barrier). Oracle: each call's outcome equals its "
         "fresh-process sequential outcome. non-trivial distinct = distinct realised schedules (pair, direction, k) + stress rounds.")
 ASSUMPTIONS = ["exactly one pre-emption per controlled schedule, at line granularity inside the library (switches inside C-level "
                "calls or between bytecodes of one line are not explored); the stress part adds uncontrolled multi-switch runs",
                "sequential reference = the call made alone in a pristine process (as in C03)"]
-TIMEOUT = {"quick": 900, "thorough": 5400}
+TIMEOUT = {"quick": 900, "thorough": 14400}
 MAX_WORKERS = 16
 ANCHORS = [("dateparser.conf", "Settings.__init__"), ("dateparser.date", "_DateLocaleParser._try_parser"),
            ("dateparser.languages.locale", "Locale._get_dictionary"), ("dateparser.languages.dictionary", "Dictionary._add_to_cache"),
@@ -187,7 +187,20 @@ def run_pair(ctx, desc):
                 continue
             slow = na.startswith("search_auto") or nb.startswith("search_auto")   # language autodetection: ~0.3 s per call
             if ctx.tier == "thorough":
-                ks = set(range(1, L + 1))
+                # every k of a short call; of a long one, the first execution of every distinct location plus a seeded
+                # sample of the remaining positions (bounded, so that the tier finishes well inside its watchdog on a
+                # loaded machine)
+                cap = 150 if slow else 2000
+                if L <= cap:
+                    ks = set(range(1, L + 1))
+                else:
+                    first = {}
+                    for idx, loc in enumerate(locs):
+                        first.setdefault(loc, idx + 1)
+                    ks = set(first.values())
+                    if len(ks) > cap:
+                        ks = set(rnd.sample(sorted(ks), cap))
+                    ks |= set(rnd.sample(range(1, L + 1), max(0, cap - len(ks))))
             else:
                 first = {}
                 for idx, loc in enumerate(locs):
@@ -201,7 +214,7 @@ def run_pair(ctx, desc):
                 ks = set(ks) | set(rnd.randrange(1, L + 1) for _ in range(extra))
             # the stretches of A that run outside the lock (before it is taken, after it is released) are where two
             # calls really overlap: every k from the start until B first has to wait, and from the end likewise
-            probe_cap = (40 if slow else 400) if ctx.tier == "quick" else (120 if slow else 1500)
+            probe_cap = (40 if slow else 400) if ctx.tier == "quick" else (80 if slow else 700)
             outside = []
             for rng_k in (range(1, min(L, probe_cap) + 1), range(L, max(0, L - probe_cap // 2), -1)):
                 run_blocked = 0
@@ -230,9 +243,9 @@ def run_pair(ctx, desc):
                 for idx, loc in enumerate(locs_b):
                     firstb.setdefault(loc, idx + 1)
                 kbs = sorted(firstb.values())
-                kbs = sorted(rnd.sample(kbs, min(len(kbs), 40 if ctx.tier == "quick" else 160)))
+                kbs = sorted(rnd.sample(kbs, min(len(kbs), 40 if ctx.tier == "quick" else 80)))
                 outside = sorted(set(outside))
-                n_ka = 8 if ctx.tier == "quick" else 24
+                n_ka = 8 if ctx.tier == "quick" else 12
                 for ka in outside[::max(1, len(outside) // n_ka)][:n_ka + 1]:      # spread evenly over the outside-lock stretch
                     for kb in kbs:
                         r2 = sched.schedule(fa, fb, ka, kb=kb)
